@@ -62,6 +62,10 @@ func project(sp *spec.Spec, ut *spec.UserType, view string, val any, depth int) 
 			if a.HasDef {
 				if z := zeroLeafOf(sp, a.Type); z != nil {
 					exp[a.Name] = vtree.Alt(a.Default, z)
+				} else if !present || av == nil {
+					// an unset collection with a default is rendered with the default (an explicitly
+					// empty one stays empty)
+					exp[a.Name] = a.Default
 				}
 			}
 			continue
